@@ -5,7 +5,7 @@ GroupLibrary.Update, GroupLibrary._do_load with duplicate check and recursive in
 Tie: (a) random sequences of update calls on real objects, (b) every way of splitting a group's data over files in
 every include order and nesting through the real GroupLibrary.Load, (c) sequences of GroupLibrary.Update calls —
 state after every call compared with the compiled model and with the specification (pointwise union / error /
-unchanged on error).
+unchanged on error: the correlation for `update`, the whole target library for `GroupLibrary.Update`).
 """
 import os, json, math, itertools
 from fractions import Fraction
@@ -19,7 +19,8 @@ OBLIGATIONS = ['PGA.Merge.' + t for t in [
     'C13_update_atomic', 'C13_update_atomic_old_fails', 'C13_update_parts', 'C13_update_idempotent',
     'C13_merge_list_union', 'C13_merge_order_free', 'C13_conflict_rejected', 'C13_conflict_S_rejected', 'C13_conflict_cp_rejected',
     'C13_overwrite_later_wins', 'C13_range_union_hull', 'C13_libUpdate_union', 'C13_load_tree_union',
-    'C13_load_order_nesting_free', 'C13_duplicate_spelling_rejected']]
+    'C13_load_order_nesting_free', 'C13_duplicate_spelling_rejected',
+    'C13_libUpdate_atomic', 'C13_libUpdate_atomic_old_fails', 'C13_libUpdate_ok_eq_old', 'C13_libUpdate_same_outcome']]
 RULE = ('cases: (a) sequences (length <= 12) of update(target, source, overwrite) over a universe of 3-6 correlations that '
         'are parts of one consistent whole (shared T_ref; reference values present/absent/zero/negative; 0-6 Cp points; range '
         'absent/whole/wider/narrower), some with an altered datum (conflict); (b) a group\'s data (H, S, individual Cp points, '
@@ -944,42 +945,53 @@ def lib_sequence_case(ctx, desc, ops, batch):
                                   dict(inp, group=str(g)), expected='distinct objects', observed='same object')
             ctx.count('libupdate_calls')
             ctx.count('libupdate_' + (err or 'ok'))
-            # --- specification, group by group in the order of the source
-            failed = False
+            # --- specification.  Group by group in the order of the source: a group the target lacks is copied, one it has is
+            # merged (pointwise union) or refused.  The merge as a whole is all-or-nothing: when some group is refused — the first
+            # such group in the source's order names the error — the target holds exactly what it held (no group added, none
+            # changed: the groups BEFORE the refused one included); otherwise every group holds its union.
+            plan = []
+            bad = None
             for nm in s_order:
                 src = before_s[nm]
                 tgt = before_t.get(nm)
-                got = after.get(nm)
-                if failed:
-                    # after the failing group nothing more is merged
-                    if not same_opt(got, tgt):
-                        ctx.violation('a library merge continued after it was rejected', dict(inp, group=nm), expected=tgt, observed=got)
-                    continue
                 if src is None:
                     continue
                 if tgt is None:
-                    if got is None or not states_close(got, src):
-                        ctx.violation('a group first seen in the merged library is not a copy of its data', dict(inp, group=nm),
-                                      expected=src, observed=got)
+                    plan.append((nm, 'copy', src))
                     continue
                 verdict, merged = spec_update(tgt, src, ow)
                 if verdict == 'ok':
-                    if got is None or not states_close(got, merged):
-                        ctx.violation('a library merge is not the pointwise union for a group', dict(inp, group=nm), expected=merged,
-                                      observed=got)
-                else:
-                    failed = True
-                    want = 'readOnly' if verdict == 'readOnly' else None
-                    if verdict == 'either' and err in ('readOnly', 'value', 'assertion'):
-                        want = err
-                    if err is None or (want and err != want):
-                        ctx.violation('a conflicting library merge is not rejected with ReadOnlyDataError' if want else
-                                      'an inconsistent library merge was accepted', dict(inp, group=nm), expected=want or 'rejected',
-                                      observed=err or got)
-                    if not same_opt(got, tgt):
-                        ctx.violation('a rejected merge changed the correlation', dict(inp, group=nm), expected=tgt, observed=got)
-            if not failed and err is not None:
-                ctx.violation('a conflict-free library merge was rejected', inp, expected='merged', observed=err)
+                    plan.append((nm, 'union', merged))
+                elif bad is None:
+                    bad = (nm, verdict, len(plan))
+            if bad is None:
+                if err is not None:
+                    ctx.violation('a conflict-free library merge was rejected', inp, expected='merged', observed=err)
+                for nm, kind, want_state in plan:
+                    got = after.get(nm)
+                    if got is None or not states_close(got, want_state):
+                        ctx.violation('a group first seen in the merged library is not a copy of its data' if kind == 'copy' else
+                                      'a library merge is not the pointwise union for a group', dict(inp, group=nm),
+                                      expected=want_state, observed=got)
+            else:
+                nm, verdict, n_before = bad
+                if n_before:
+                    ctx.count('libupdate_refused_after_mergeable_groups')
+                want = 'readOnly' if verdict == 'readOnly' else None
+                if verdict == 'either' and err in ('readOnly', 'value', 'assertion'):
+                    want = err
+                if err is None or (want and err != want):
+                    ctx.violation('a conflicting library merge is not rejected with ReadOnlyDataError' if want else
+                                  'an inconsistent library merge was accepted', dict(inp, group=nm), expected=want or 'rejected',
+                                  observed=err or after.get(nm))
+                if err is not None:
+                    added = sorted(g for g in after if g not in before_t)
+                    gone = sorted(g for g in before_t if g not in after)
+                    changed = sorted(g for g in after if g in before_t and not same_opt(after[g], before_t[g]))
+                    if added or gone or changed:
+                        ctx.violation('a rejected library merge changed the target library', dict(inp, group=nm),
+                                      expected='the target holds what it held before the merge was refused',
+                                      observed={'raised': err, 'groups_added': added, 'groups_changed': changed, 'groups_removed': gone})
             if not all(same_opt(obs_lib(libs[s]).get(nm), before_s.get(nm)) for nm in before_s):
                 ctx.violation('merging changed the source library', inp, expected=before_s, observed=obs_lib(libs[s]))
         ctx.case(json.dumps([desc, ops]), None)
@@ -1066,7 +1078,7 @@ def run(ctx):
     from .c12 import reach_floor
     reach_floor(ctx, ['update_ok', 'update_readOnly', 'update_value', 'load_ok', 'load_key', 'load_readOnly', 'load_inputData',
                       'files_2', 'files_3', 'files_4', 'mode_clean', 'mode_conflict', 'mode_duplicate', 'mode_empty_entry',
-                      'mode_invalid_part', 'libupdate_ok', 'libupdate_readOnly', 'corr_c13.seq', 'corr_c13.load', 'corr_c13.libseq',
+                      'mode_invalid_part', 'libupdate_ok', 'libupdate_readOnly', 'libupdate_refused_after_mergeable_groups', 'corr_c13.seq', 'corr_c13.load', 'corr_c13.libseq',
                       'loads_from_another_cwd', 'cwd_other_files'])
 
 
